@@ -23,6 +23,14 @@ var protocolNames = []string{
 	vmcommon.BuiltInFunctionESDTNFTBurn, vmcommon.BuiltInFunctionESDTNFTAddURI, vmcommon.BuiltInFunctionESDTNFTUpdateAttributes, vmcommon.BuiltInFunctionMultiESDTNFTTransfer,
 }
 
+// functions whose discriminating scenario is charged exactly their own entry
+var simplePriced = map[string]string{
+	vmcommon.BuiltInFunctionClaimDeveloperRewards: "ClaimDeveloperRewards", vmcommon.BuiltInFunctionChangeOwnerAddress: "ChangeOwnerAddress",
+	vmcommon.BuiltInFunctionSetUserName: "SaveUserName", vmcommon.BuiltInFunctionESDTTransfer: "ESDTTransfer", vmcommon.BuiltInFunctionESDTBurn: "ESDTBurn",
+	vmcommon.BuiltInFunctionESDTLocalMint: "ESDTLocalMint", vmcommon.BuiltInFunctionESDTLocalBurn: "ESDTLocalBurn",
+	vmcommon.BuiltInFunctionESDTNFTAddQuantity: "ESDTNFTAddQuantity", vmcommon.BuiltInFunctionESDTNFTBurn: "ESDTNFTBurn",
+}
+
 var epochGated = map[string]bool{
 	vmcommon.BuiltInFunctionESDTNFTAddURI: true, vmcommon.BuiltInFunctionESDTNFTUpdateAttributes: true, vmcommon.BuiltInFunctionMultiESDTNFTTransfer: true,
 }
@@ -314,6 +322,18 @@ func C18(tier Tier) int {
 			if !l.OK() {
 				reg.Fail(P, "binding", b.name+":scenario-fails", fmt.Sprintf("the function registered as %s rejects the discriminating call %s: %v %v", b.name, DescribeAction(act), l.Err, l.Panic), "case", b.name)
 				continue
+			}
+			// bound to that name's own price of the construction schedule (scenarios without a
+			// per-byte component)
+			if field, simple := simplePriced[b.name]; simple {
+				fwd := uint64(0)
+				for _, m := range l.Outs {
+					fwd += m.GasLimit
+				}
+				consumed := act.Gas - l.Out.GasRemaining - fwd
+				if want := builtin(world.DefaultSchedule(), field); consumed != want {
+					reg.Fail(P, "binding", b.name+":construction-price", fmt.Sprintf("the function registered as %s charges %d under the construction schedule, its own entry %s is %d", b.name, consumed, field, want), "case", b.name)
+				}
 			}
 			if why := b.check(w, l.Post, l); why != "" {
 				reg.Fail(P, "binding", b.name+":wrong-behaviour", fmt.Sprintf("the function registered as %s does not behave as %s on %s: %s", b.name, b.name, DescribeAction(act), why), "case", b.name)
